@@ -395,6 +395,10 @@ func (c17) Run(sc *Scenario) *Verdict {
 		return v
 	}
 	for t := range sc.Tasks {
+		if sr.Outcomes[t].Budget {
+			v.Inconclusive = "a task ran into the generic step budget (termination is C04's business)"
+			return v
+		}
 		if sr.Outcomes[t].Panic != "" {
 			return v.fail("task-panicked", "task %d: %s\n%s", t, sr.Outcomes[t].Panic, sr.Outcomes[t].Stack)
 		}
